@@ -34,13 +34,18 @@ class ConstModel(BaseEstimator, RegressorMixin):
         return numpy.full((X.shape[0],), self.c_)
 
 
-def corr_trace(tid, rng, seed, d, n, draws, frame, minmax, base, identity, const_col, collinear, as_int=False):
+def corr_trace(tid, rng, seed, d, n, draws, frame, minmax, base, identity, const_col, collinear, as_int=False, flag_col=None):
     from mlinsights.metrics import correlations as C
     data = numpy.array([[rng.randint(-5, 5) for _ in range(d)] for _ in range(n)], dtype=float)
     if const_col is not None:
         data[:, const_col] = 3.0
     if collinear and d >= 2:
         data[:, d - 1] = 2 * data[:, 0] + 1
+    if flag_col is not None:
+        # a rare indicator: constant on the test half of some draws although it can be learnt from the training half
+        data[:, flag_col] = 0.0
+        for r in rng.sample(range(n), 2):
+            data[r, flag_col] = 1.0
     labels = ["L%d" % c for c in range(d)]
     # the values are integers: the table may come with an integer dtype (the other container keeps float64)
     typed = data.astype(numpy.int64) if as_int else data.copy()
@@ -93,7 +98,11 @@ def corr_trace(tid, rng, seed, d, n, draws, frame, minmax, base, identity, const
     numpy.random.seed(seed)
     res2 = C.non_linear_correlations(other, base, draws=draws, minmax=minmax)
     mean2 = res2[0] if minmax else res2
-    same = bool(numpy.allclose(numpy.asarray(mean2, dtype=float), M, rtol=0, atol=1e-6, equal_nan=True))
+    # rows whose predictor is constant on a training half are decided by rounding noise (a regression on a column that
+    # is constant up to the last ulp): only the rows of learnable predictors are compared between the two containers
+    rows_ok = [i for i in range(d) if all(numpy.ptp(splits[k][0][:, i]) > 0 for k in range(len(splits)))] if splits else list(range(d))
+    M2 = numpy.asarray(mean2, dtype=float)
+    same = bool(M2.shape == M.shape and numpy.allclose(M2[rows_ok], M[rows_ok], rtol=0, atol=1e-6, equal_nan=True))
     kept = True
     if frame:
         kept = bool(list(mean.columns) == labels and list(mean.index) == labels)
@@ -102,7 +111,8 @@ def corr_trace(tid, rng, seed, d, n, draws, frame, minmax, base, identity, const
                    mini=enc(mini) if minmax else enc(M), maxi=enc(maxi) if minmax else enc(M),
                    labels_kept=kept, input_untouched=untouched, frame_eq_array=same, learnable=learnable))
     return dict(id=tid, kind="corr", d=d, draws=draws, minmax=minmax, identity_model=identity, observable=observable, ev=ev, site=CSITE,
-                sig="frame=%s minmax=%s const=%s collinear=%s%s" % (frame, minmax, const_col is not None, collinear, " int" if as_int else ""),
+                sig="frame=%s minmax=%s const=%s collinear=%s%s%s" % (frame, minmax, const_col is not None, collinear, " int" if as_int else "",
+                                                                     " flag" if flag_col is not None else ""),
                 tr="None", inv="None", outcome=[], r2_equal=True)
 
 
@@ -127,6 +137,18 @@ def dispatch_trace(tid, trn, invn, rng):
             if v.shape == ref.shape and numpy.array_equal(v, f(ref)):
                 return name
         return "?"
+    if tid % 2:
+        # the caller's buffers held other values in an earlier call (a fold buffer refilled in place)
+        y0, p0 = y.copy(), p.copy()
+        y *= 3.0
+        p += 1.0
+        try:
+            comparable_metric(metric, y, p, tr=table[trn], inv_tr=table[invn])
+        except (TypeError, ValueError):
+            pass
+        y[:] = y0
+        p[:] = p0
+        got.clear()
     try:
         comparable_metric(metric, y, p, tr=table[trn], inv_tr=table[invn])
         outcome = ["call", which(got["a"], y), which(got["b"], p)]
@@ -190,6 +212,18 @@ def run(ctx):
             groups.setdefault((d, draws), []).append(t)
             if len(ctx.samples) < 2:
                 ctx.samples.append(dict(kind="corr", d=d, draws=draws, ev=t["ev"][:3] + t["ev"][-1:]))
+    for (d, draws) in [(2, 3), (3, 2)]:
+        for rep in range(40 if thorough else 8):
+            tid += 1
+            seed, n, frame = rng.randint(0, 10 ** 6), rng.randint(12, 30), rng.random() < 0.5
+            base = rng.choice([LinearRegression(), LinearRegression(fit_intercept=False)])
+            ctx.case(("corr-flag", d, draws, frame, seed, n), nontrivial=True)
+            try:
+                t = corr_trace(tid, rng, seed, d, n, draws, frame, True, base, True, None, False, flag_col=rng.randrange(d))
+            except Exception as e:
+                ctx.violation("CallSucceeds", CSITE, "frame=%s flag" % frame, repr(e))
+                continue
+            groups.setdefault((d, draws), []).append(t)
     disp = []
     for trn in ("None", "log", "exp", "F", "G", "bad"):
         for invn in ("None", "log", "exp", "F", "G", "bad"):
